@@ -439,6 +439,38 @@ fn one_story(ops: &[Value], tr: &mut Trace) -> String {
                                     handle.complete().await?;
                                     Ok(code)
                                 }
+                                "revoke" => {
+                                    // AdministratorCommissioning::RevokeCommissioning (timed invoke) while a window is open: it closes
+                                    // the window and forces the fail-safe to expire
+                                    if let Some(d) = dev() {
+                                        let _ = d.open_basic_comm_window(900, &crypto, &());
+                                    }
+                                    use rs_matter::tlv::{TLVTag, TLVWrite};
+                                    let mut sender = exchange.invoke_sender(Some(5000)).await?;
+                                    let mut chunk = loop {
+                                        match sender.tx().await? {
+                                            TxOutcome::BuildRequest(builder) => {
+                                                sender = builder.suppress_response(false)?.timed_request(true)?.invoke_requests()?.push()?.path(0, 0x3c, 0x02)?
+                                                    .data(|w| { w.start_struct(&TLVTag::Context(1))?; w.end_container() })?.end()?.end()?.end()?;
+                                            }
+                                            TxOutcome::GotResponse(c) => break c,
+                                        }
+                                    };
+                                    let mut code = String::from("sent");
+                                    if let Some(resp) = chunk.response()? {
+                                        if let Some(irs) = &resp.invoke_responses {
+                                            for r in irs.iter() {
+                                                if let Ok(rs_matter::im::CmdResp::Status(st)) = r {
+                                                    code = format!("{:?}", st.status.status);
+                                                }
+                                            }
+                                        }
+                                    }
+                                    while let Some(next) = chunk.complete().await? {
+                                        chunk = next;
+                                    }
+                                    Ok(code)
+                                }
                                 "complete" => {
                                     let handle = exchange.general_commissioning().commissioning_complete(0).await?;
                                     let code = format!("{:?}", handle.response()?.error_code()?);
